@@ -205,15 +205,17 @@ def _read_field(v, schema, tname, names):
     return read(v, schema, tname, names)
 
 
-def mutate_in_place(msg, schema, tname, rng):
+def mutate_in_place(msg, schema, tname, rng, grow=False):
     """Change leaf values of a live message in place (containers and nested objects are kept, so a
-    message that aliases any of them changes too). Returns the number of leaves changed."""
+    message that aliases any of them changes too). With grow=True every dynamic/limited/greedy array that has
+    room additionally gets one more element through append()/add() - an (empty) container shared with another
+    message shows up there. Returns the number of leaves changed."""
     r = schema.resolve(tname)
     n = 0
     if r.kind == 'union':
         arm = [a for a in r.arms if a[0] == msg.discriminator][0]
         if is_composite(schema, arm[1]):
-            return mutate_in_place(getattr(msg, arm[2]), schema, arm[1], rng)
+            return mutate_in_place(getattr(msg, arm[2]), schema, arm[1], rng, grow)
         nv = _other_scalar(schema, arm[1], getattr(msg, arm[2]), rng)
         if nv is not None:
             setattr(msg, arm[2], nv)
@@ -229,7 +231,7 @@ def mutate_in_place(msg, schema, tname, rng):
             if cur is None:
                 continue
             if comp:
-                n += mutate_in_place(cur, schema, m.type, rng)
+                n += mutate_in_place(cur, schema, m.type, rng, grow)
             else:
                 nv = _other_scalar(schema, m.type, cur, rng)
                 if nv is not None:
@@ -243,13 +245,27 @@ def mutate_in_place(msg, schema, tname, rng):
         else:
             for i in range(len(cur)):
                 if comp:
-                    n += mutate_in_place(cur[i], schema, m.type, rng)
+                    n += mutate_in_place(cur[i], schema, m.type, rng, grow)
                 else:
                     nv = _other_scalar(schema, m.type, cur[i], rng)
                     if nv is not None:
                         cur[i] = nv
                         n += 1
+            if grow and m.kind in (DYNAMIC, LIMITED, GREEDY) and (m.kind != LIMITED or len(cur) < m.size):
+                if not comp:
+                    cur.append(_a_scalar(schema, m.type))
+                    n += 1
+                elif not _has_unsized_bytes(schema, m.type):
+                    cur.add()
+                    n += 1
     return n
+
+
+def _a_scalar(schema, tname):
+    r = schema.resolve(tname)
+    if isinstance(r, str):
+        return 1.5 if r in FLOATS else 1
+    return r.members[-1][1]
 
 
 def _other_scalar(schema, tname, cur, rng):
